@@ -5,26 +5,16 @@ operations — the `NetM` counterpart of `NrfProofs/Exec.lean`.  Generic rules o
 -/
 import NrfModel.Net.Api
 import NrfProofs.Exec
+import NrfProofs.NetExecCore
 
 namespace Nrf.Net
 open Nrf
 
-/-- run a node-layer computation from state `s` -/
-def nexec {α} (m : NetM α) (s : NetState) : Except PyErr α × NetState := (m.run).run s
-
-/-- the node the computation runs as -/
-def NetState.node (s : NetState) : Node := s.nodes.getD s.cur default
-
-/-- the state after the running node's object was changed by `f` -/
-def NetState.setNode (s : NetState) (f : Node → Node) : NetState :=
-  { s with nodes := s.nodes.modify s.cur f }
+-- `nexec`, `NetState.node`, `NetState.setNode`, `NetState.drv`: NrfProofs/NetExecCore.lean (shared with the C07 stack)
 
 /-- the state after an `RF24` method of the running node's radio object ran to the driver state `d` -/
 def NetState.afterRf (s : NetState) (d : DrvState) : NetState :=
   { s with nodes := s.nodes.modify s.cur (fun n => { n with rf := d.d }), w := d.w }
-
-/-- the driver state an `RF24` method of the running node starts from -/
-def NetState.drv (s : NetState) : DrvState := { d := s.node.rf, w := s.w }
 
 @[simp] theorem nexec_pure {α} (a : α) (s : NetState) : nexec (pure a : NetM α) s = (.ok a, s) := rfl
 
